@@ -143,8 +143,19 @@ def coq_make(targets=None, timeout=1500):
     return rc == 0, o + e
 
 
+_COQ_UP_TO_DATE = False
+
+
 def coqc_file(path, timeout=600):
-    """Compile one .v file against the built development; returns (rc, output)."""
+    """Compile one .v file against the built development; returns (rc, output). The whole development is brought up to
+    date first (once per process): a case file may import libraries the property's own theorem file does not depend on, and
+    a library compiled against an older version of another one cannot be loaded next to it."""
+    global _COQ_UP_TO_DATE
+    if not _COQ_UP_TO_DATE:
+        ok, out = coq_make()
+        if not ok:
+            return 1, "the development does not build: " + out[-2000:]
+        _COQ_UP_TO_DATE = True
     rc, o, e = run(["coqc", "-R", COQ, "Kessoku", path], cwd=os.path.dirname(path), timeout=timeout)
     return rc, o + e
 
